@@ -28,11 +28,48 @@ def obligations(tier):
                           dict(spec=[kind, name, kw], n=nn, tf=tf, fill=fill, sched=("all" if tier == "thorough" and nn <= 6 else "family")), EQ,
                           weight=(10 if name in HEAVY else 1) * nn, budget_s=240 if tier == "quick" else 3600,
                           max_paths=20000 if tier == "quick" else 400000))
+    # the same property under unusual-but-legal configurations (rounding, naming, candlestick type, other inputs)
+    for name, kw, w, extra in CONFIG_VARIANTS:
+        n = w + (2 if name in HEAVY else 3)
+        for tf, fill, nn in ((None, False, n), ("T2", True, 2 * (w + 1) + 1)):
+            if tf and name in HEAVY and tier == "quick":
+                continue
+            obs.append(Ob(f"cfg:{spec_name(('ind', name, kw))}{extra}/tf={tf}/fill={fill}/n={nn}", dict(spec=["ind", name, kw], n=nn, tf=tf, fill=fill, sched="family", extra=extra), EQ,
+                          weight=(10 if name in HEAVY else 1) * nn, budget_s=240 if tier == "quick" else 3600, max_paths=20000 if tier == "quick" else 400000))
+    # indicators chained inside a Hexital (one reads the other's output): batch vs every append schedule
+    for n in ((5,) if tier == "quick" else (5, 6)):
+        obs.append(Ob(f"hexital-chain/n={n}", dict(n=n), EQ, fn="run_chain", weight=20, budget_s=600))
     return obs
 
 
+def run_chain(ctx, P):
+    _, _, Candle, _, Hexital = lib()
+    n = P["n"]
+    cs = mk_candles(ctx, n)
+
+    def members():
+        return [build("EMA", dict(period=2)), build("SMA", dict(period=2, input_value="EMA_2")), build("MACD", dict(fast_period=2, slow_period=3, signal_period=2)),
+                build("ROC", dict(period=2, input_value="MACD_2_3_2.MACD")), build_amorph("positive", {}), build("Counter", dict(input_value="positive")),
+                build_amorph("crossover", dict(indicator_one="EMA_2", indicator_two="SMA_2"))]
+    batch = Hexital("b", clone(cs), members())
+    batch.calculate()
+    a = snap(batch.candles())
+    ctx.observe("batch", a)
+    for k, chunks in schedules(n, "family"):
+        src = clone(cs)
+        inc = Hexital("i", src[:k], members())
+        if k:
+            inc.calculate()
+        pos = k
+        for c in chunks:
+            part = src[pos:pos + c]
+            inc.append(part if c > 1 else part[0])
+            pos += c
+        ctx.equal(f"chained incremental==batch[preload={k},chunks={'+'.join(map(str, chunks))}]", a, snap(inc.candles()))
+
+
 def common_kw(P):
-    kw = {}
+    kw = dict(P.get("extra") or {})
     if P.get("tf"):
         kw["timeframe"] = P["tf"]
         kw["timeframe_fill"] = bool(P.get("fill"))
@@ -94,7 +131,7 @@ def run(ctx, P):
 
 META = dict(
     bounds=dict(
-        quick="stream length n = warm-up+3 (value-branching indicators warm-up+1..2), smallest legal periods (2; MACD 2/3/2; HMA 4; STOCH 2/2/2); timeframes none, and T2 with fill off/on for the non-branching indicators, on a 1-minute grid; schedules: one-by-one from empty, one chunk, k candles at construction then one-by-one (all k), two chunks split at every k, 1 preloaded + rest as a chunk",
+        quick="stream length n = warm-up+3 (value-branching indicators warm-up+1..2), smallest legal periods (2; MACD 2/3/2; HMA 4; STOCH 2/2/2); timeframes none, and T2 with fill off/on for the non-branching indicators, on a 1-minute grid; schedules: one-by-one from empty, one chunk, k candles at construction then one-by-one (all k), two chunks split at every k, 1 preloaded + rest as a chunk; plus 11 configuration variants (round_value 0/1/2, name_suffix, fullname_override with a '.', Heikin-Ashi, other input fields) and a Hexital of 7 chained members (SMA of EMA, ROC of MACD.MACD, Counter of positive, crossover of two indicators)",
         thorough="n = warm-up+4 (branching: +2..3), periods 2 and 3, T2 +/- fill for every indicator, all 2^(n-1) chunk compositions x {empty, first chunk preloaded} when n<=6",
     ),
     stubs=["float arithmetic -> exact real arithmetic", "round(x,nd) -> uninterpreted rnd_nd(x) with |rnd-x|<=0.5*10^-nd", "symbolic*symbolic and /symbolic -> uninterpreted mul/div (equal under every interpretation => equal under the real one)", "max/min/abs -> If-terms", "sqrt -> uninterpreted with s>=0, s*s=x"],
